@@ -1463,6 +1463,9 @@ func genC03(c *Ctx) {
 	// ---- DER level: non-canonical and malformed encodings of every modelled part ----
 	g.genDerStream()
 
+	// ---- the Name SEQUENCEs from their octets (c03_names.go) ----
+	g.genNames()
+
 	// ---- malformed stream: mutations of valid encodings; the library's verdict is recorded ----
 	nm := 600
 	if c.Thorough() {
